@@ -179,6 +179,14 @@ class C07(PropBase):
                     lv["tag"] = "$dict"
                     for fk, fv in list(lv["f"].items()):
                         lv["f"][fk] = gen.scalar_wire("x", fv) if not isinstance(fv, dict) or any(t_ in fv for t_ in ("$list", "$dict", "$tuple")) else _wire_scalar(fv)
+                if rng.random() < 0.4 and all(lv["edge"] in ("union", "list", "dict") for lv in wl[:-1]):
+                    # ... refused, then repaired in place and submitted again (the same objects)
+                    path = []
+                    for lv in wl[:-1]:
+                        path += {"union": ["nxt"], "list": ["nxt", 0], "dict": ["nxt", "k"]}[lv["edge"]]
+                    steps.append({"op": "retry_repaired", "t": t, "x": {"$chain": copy.deepcopy(wl)}, "path": path, "field": "v",
+                                  "bad": {"$list": [{"$list": []}]}, "v": v, "mod": "vw0", "vdepth": d})
+                    continue
                 wl[-1]["f"]["v"] = {"$list": [{"$list": []}]}
                 steps.append({"op": "unmarshal", "t": t, "x": {"$chain": wl}, "mod": "vw0", "vdepth": d, "rejected": True})
                 continue
@@ -250,6 +258,17 @@ class C07(PropBase):
                     sess.faults["reject_deep"] += 1
                     sess.probes["rejection_unwound_through_proxies"] += 1
                 sess.fault_fired_before = True
+            return
+        if step["op"] == "retry_repaired":
+            first, second = sess.retry
+            if first.ok:
+                return  # the "unconvertible" member was convertible after all: no fault, nothing to judge
+            if isinstance(first.exc, RecursionError) or (not second.ok and isinstance(second.exc, RecursionError)):
+                return
+            want = sess.V(step["v"])
+            if not second.ok or not model.same(second.value, want):
+                sess.violation("repaired-input-refused", i, {"t": model.tsrc(step["t"]), "depth": step.get("vdepth"), "first": repr(first)[:120], "second": repr(second)[:200]},
+                               sig=f"repaired-input-refused:{'raised' if not second.ok else 'value'}")
             return
         if step["op"] != "roundtrip":
             return
